@@ -109,8 +109,8 @@ def run(ctx):
             detail = "apply is guarded by resolve_id(..)=Some and keyspaces.get(..)=Some"
             if ok:
                 # the name looked up is the one resolved; the tree applied to comes from that lookup
-                name_ok = any(x.k == "call" and x.a[0] == RESOLVE and A.tkey(x) == A.tkey(res) for x in A.walk(got.a[1][1]))
-                tree_ok = any(x.k == "call" and A.tkey(x) == A.tkey(got) for x in A.walk(tree)) and A.ends_with_field(tree, "tree")
+                name_ok = any(x.k == "call" and x.a[0] == RESOLVE and x.site == res.site for x in A.walk(got.a[1][1]))
+                tree_ok = any(x.k == "call" and x.site == got.site and x.a[0] == got.a[0] for x in A.walk(tree)) and A.ends_with_field(tree, "tree")
                 # the id resolved belongs to this record
                 idt = res.a[1][1]
                 if leaf == "clear":
